@@ -44,11 +44,16 @@ def natDigits (n : Nat) : List Nat :=
 termination_by n
 decreasing_by omega
 
+/-- `format(n, '0{w}d')` for a natural number: exactly `w` digits when the number fits (zero
+    padded), otherwise its minimal digits -/
+def fmtNat (w n : Nat) : Text :=
+  if 0 < w ∧ n < 10 ^ w then (toDigits 10 w n).map (48 + ·) else natDigits n
+
 /-- `format(n, '0{w}d')` / `f'{n:0{w}}'` for an integer: sign, then zero padding to width `w` -/
 def fmtInt (w : Nat) (i : Int) : Text :=
   match i with
-  | .ofNat n => let d := natDigits n; List.replicate (w - d.length) 48 ++ d
-  | .negSucc n => let d := natDigits (n + 1); 45 :: (List.replicate (w - 1 - d.length) 48 ++ d)
+  | .ofNat n => fmtNat w n
+  | .negSucc n => 45 :: fmtNat (w - 1) (n + 1)
 
 /-- `str(i)` -/
 def strInt (i : Int) : Text := fmtInt 0 i
